@@ -12,7 +12,7 @@ import PV.Prog.RenderLemmas
                                                       Expression mode and Module mode agree on one-expression lines (the
                                                       exceptions the grammar has are named, each with a witness);
                                                       Interactive mode = Module mode
-  (d) `elif_chain_spec`, `import_level_spec`, `annassign_simple_spec` (+ `annassign_bare_name`, `annassign_paren_not_simple`)
+  (d) `elif_chain_spec`, `import_level_spec`, `annassign_simple_spec` (+ `annassign_bare_name`, `annassign_paren_not_simple`), `match_subject_spec`
                                                       the hand-written action code at program level
   (e) `render_parse_partial`                          printing a program of the fragment (`PV.Prog.Render`) in canonical
                                                       layout and parsing it gives the program back
@@ -327,6 +327,48 @@ example : parseProgram .module [.e (.name [120]), .e (.op .dot), .e (.name [121]
 theorem annassign_paren_name_not_simple :
     parseProgram .module [.e (.op .lpar), .e (.name [120]), .e (.op .rpar), .e (.op .colon), .e (.name [105]), .newline]
     = some (.module [.annAssign (.name [120]) (.name [105]) none false]) := by rfl
+
+
+/-- **the subject of a `match` statement** is `genericList` of the comma-separated subjects: the subject itself when
+    there is one subject and no trailing comma, otherwise the tuple of the subjects (the reference rule; before the
+    /repo fix of the second `MatchStatement` alternative `match x,:` had the bare `x` as subject) -/
+theorem match_subject_spec (f : Nat) (t : Tok) (ts : List Tok) (subj : Expr) (cs : List MatchCase) (r : List Tok)
+    (ht : tk t = .hk .match)
+    (h : parseCompound (f + 1) (t :: ts) = some (.match subj cs, r)) :
+    ∃ es tc rest, parseCommaList .starOrNamed f ts = some ((es, tc), rest) ∧ subj = genericList (es, tc) := by
+  unfold parseCompound at h
+  split at h
+  all_goals (try (rename_i heq; simp only [List.cons.injEq] at heq; obtain ⟨rfl, _⟩ := heq; simp [tk] at ht; done))
+  all_goals (try (simp at h; done))
+  rename_i heq1 heq2
+  simp only [List.cons.injEq] at heq2
+  obtain ⟨rfl, rfl⟩ := heq2
+  obtain rfl : f = _ := Nat.succ.inj heq1
+  simp only [ht] at h
+  split at h
+  · split at h
+    · split at h
+      · simp only [Option.some.injEq, Prod.mk.injEq, Stmt.match.injEq] at h
+        obtain ⟨⟨rfl, _⟩, _⟩ := h
+        exact ⟨_, _, _, by assumption, rfl⟩
+      · simp at h
+    · simp at h
+  · simp at h
+
+/-- `match x,:⏎ case _: pass` -/
+def matchCommaToks : List PTok :=
+  [.e (HK.tok .match), .e (.name [120]), .e (.op .comma), .e (.op .colon), .newline, .indent,
+   .e (HK.tok .case), .e (.name [95]), .e (.op .colon), .e (HK.tok .pass), .newline, .dedent]
+
+/-- **`match x,:` has the one-element tuple as its subject** (former finding `match-subject-single-trailing-comma`
+    of C01, repaired in /repo; regression example and non-vacuity of `match_subject_spec`) -/
+theorem match_subject_trailing_comma :
+    parseProgram .module matchCommaToks
+      = some (.module [.match (.tuple [.name [120]]) [.mk (.matchAs none none) none [.pass]]]) := by rfl
+
+/-- `match x:` — the subject itself -/
+example : parseProgram .module (matchCommaToks.filter (· != .e (.op .comma)))
+      = some (.module [.match (.name [120]) [.mk (.matchAs none none) none [.pass]]]) := by rfl
 
 
 /-! ## (e) print, then parse -/
